@@ -153,6 +153,7 @@ def gen_cfg(rng, prop, tier, allow_big=True):
     cfg["w"] = w
     cfg["allow_nn"] = family == "node" and rng.random() < 0.6
     if prop == "C01":
+        cfg["acts"] = rng.random() < 0.25  # hooks that move an unrelated node while the call is in flight
         cfg["profile"] = wchoice(rng, (("none", 15), ("once", 40), ("multi", 20), ("persist", 25)))
         cfg["hooks"] = list(ALL_HOOKS)
         cfg["excs"] = list(EXC_ALL)
@@ -365,6 +366,26 @@ def gen_op(rng, model, cfg, step):
             x = rng.choice([i for i in range(n_nodes) if i != op["n"]])
             op["f"] = {"act": [[rng.randrange(len(exp.trace)), x]]}
         return op
+    if cfg["prop"] in ("C18",) + (("C01",) if cfg.get("acts") else ()) and n_nodes > 2 and rng.random() < 0.06:
+        exp = expect_of(model, op)
+        if exp.trace:
+            # a hook that re-parents some node while the call is in flight
+            # the new place is in a tree that has nothing to do with the call, so the nested move can never
+            # interfere with the loop check the call has already made
+            busy = set()
+            for i in [op.get("n"), op.get("p")] + (op["xs"] if isinstance(op.get("xs"), list) else []):
+                if isinstance(i, int):
+                    busy.add(model.root(i))
+            free = [i for i in range(n_nodes) if model.root(i) not in busy]
+            x = rng.randrange(n_nodes)
+            if op["op"] in ("children", "del") and model.children[op["n"]] and rng.random() < 0.6:
+                x = rng.choice(model.children[op["n"]])
+            y = rng.choice(free) if free and rng.random() < 0.8 else None
+            if y is not None and model.root(x) == model.root(y):
+                y = None
+            if x != op.get("n"):
+                op["f"] = {"act": [[rng.randrange(len(exp.trace)), x, y]]}
+                return op
     if cfg.get("persist_run"):
         op["f"] = {"persist": cfg["persist_spec"]}
     elif prof != "none" and rng.random() < cfg["p_fault"]:
@@ -759,7 +780,9 @@ def run(cfg, ops=None, rng=None, extra=None, pre_gen=None, handle=None):
                 res.bump("nontrivial_ops")
             h.update(repr((step, op_brief(op), excname, fired_brief(fired), len(log))).encode())
             # (vii) no internal assertion may ever fire
-            if excname == "AssertionError":
+            if excname == "AssertionError" and not world.acted:
+                # (a hook that moved a node itself may trip the setter's child-count assertion: hooks that
+                # change the tree are outside every property, the assertion documents just that)
                 raise Violation(
                     prop if prop in ("C01", "C02") else "GUARD",
                     "assertion",
@@ -784,7 +807,7 @@ def run(cfg, ops=None, rng=None, extra=None, pre_gen=None, handle=None):
             post = world.snapshot()
             h.update(repr(post).encode())
             res.states.add(stable_hash(post))
-            for _, x in world.acted:
+            for _, x in (a[:2] for a in world.acted):
                 # a hook detached another node while the call was in flight; that commutes with the call's own effect
                 model.apply_parent(x, None)
                 res.bump("hook_actions")
